@@ -1,5 +1,6 @@
 import PoorModel.Session
 import PoorModel.Base64
+import PoorModel.Drv.Json
 namespace Poor.Drv.Session
 open Poor Poor.Session
 
@@ -32,6 +33,31 @@ def handle : List String → String
         (s', if op == .header then acc.2 ++ [showAttrs s'.attrs] else acc.2)) (St.init cfg, [])
       if outs.isEmpty then "-" else String.intercalate " | " outs
     | _, _, _, _ => "bad-op"
+  | "cookie" :: k :: ops =>
+    -- `cookie <key stream hex> <op>...`: `s<canonical value>` assigns the data, `w` write(), `h` header(), `d` destroy();
+    -- the cookie value after every `w` / `h`, for a session without compression
+    match hexDecode k with
+    | none => "bad-op"
+    | some key =>
+      let parsed := ops.mapM fun (o : String) =>
+        if o = "w" then some (DOp.write : DOp Poor.Json.J) else if o = "h" then some .header else if o = "d" then some .destroy
+        else match o.toList with
+          | 's' :: rest =>
+            let tok := String.ofList rest
+            (match Poor.Drv.Json.readJ (tok.length + 1) rest with
+             | some (v, []) => some (.set v)
+             | _ => none)
+          | _ => none
+      match parsed with
+      | none => "bad-op"
+      | some opl =>
+        let s0 : DSt Poor.Json.J := ⟨St.init ⟨0, none, [], [], false, none⟩, .obj [], []⟩
+        let (_, outs) := opl.foldl (fun (acc : DSt Poor.Json.J × List String) op =>
+          let s' := dstep plainCodec key acc.1 op
+          match op with
+          | .write | .header => (s', acc.2 ++ [String.ofList s'.value])
+          | _ => (s', acc.2)) (s0, [])
+        if outs.isEmpty then "-" else String.intercalate "|" outs
   | ["b64e", x] =>
     match hexDecode x with
     | some b => strEncode (Poor.Base64.encode b)
